@@ -146,6 +146,38 @@ pub fn run(ctx: &Ctx, rep: &mut Report) {
             rep.sample(J::obj(vec![("paths", J::Arr(vec![J::s(&p1), J::s(&p2)])), ("renders", J::Int(5)), ("verdict", J::s("identical for same path; one differing string leaf decoding to the paths; io_map unchanged"))]));
         }
     });
+    // time tests: the embedded second belongs to the compile call, not to the rendering
+    par_cases(ctx, "clock", ctx.pick(4, 32), rep, |i, rep| {
+        rep.evaluations += 1;
+        let case = format!("clock:{}", i);
+        let ts = crate::gen::mk_time(i % 4, 3 + i);
+        let e = crate::gen::t(lipe_find_parser::ast::Test::ModifyTime(lipe_find_parser::ast::Comparison::GreaterThan(ts)));
+        let r = guard(|| {
+            let t0 = crate::sut::now_secs();
+            let c = compile(&e, &opts_default()).ok()?;
+            let t1 = crate::sut::now_secs();
+            let first = c.scheme("/dev/a");
+            std::thread::sleep(std::time::Duration::from_millis(1200));
+            let second = c.scheme("/dev/a");
+            Some((t0, t1, first, second))
+        });
+        match r {
+            Ok(Some((t0, t1, first, second))) => {
+                if first != second {
+                    rep.violation("C20:not-repeatable:clock", "rendering the same compiled time test twice, 1.2 s apart, gave different programs", &case, J::obj(vec![("first", J::s(&first)), ("second", J::s(&second))]));
+                    return;
+                }
+                let toks: Vec<i128> = crate::monitors::c15::int_tokens(&second).into_iter().filter(|v| *v >= 1_000_000_000).collect();
+                if toks.iter().any(|v| *v < t0 || *v > t1) {
+                    rep.violation("C20:clock-read-at-render-time", &format!("embedded second {:?} outside the compile window [{}, {}]", toks, t0, t1), &case, J::obj(vec![("program", J::s(&second))]));
+                    return;
+                }
+                rep.count("clock_histories_ok");
+            }
+            Ok(None) => {}
+            Err(p) => rep.violation(&format!("C20:{}", p.sig()), &p.0, &case, J::Null),
+        }
+    });
     if ctx.only.is_none() {
         rep.floor("histories completed", rep.get("histories_ok") + rep.violation_counts.values().sum::<u64>() > 100);
     }
